@@ -19,6 +19,7 @@ import math
 import numpy as np
 
 from ..drivers import molecules as M
+from ..drivers import sp
 from ..oracles import nddo_ref as NR
 from ..pool import is_error, is_timeout, pmap
 
@@ -471,6 +472,37 @@ def scf_tasks(tier, seed):
     return out
 
 
+# ------------------------------------------------------------------------------------ unit-system twin
+
+
+def eval_units(task):
+    """Documented non-default configuration: geometry given in bohr with Constants(length_conversion_factor=1.0).
+    Every energy-like result must equal the default (Angstrom) run; the reference model has no unit option, so the
+    default run (itself compared with the model above) is the twin."""
+    import torch
+    from seqm.ElectronicStructure import Electronic_Structure
+    from seqm.Molecule import Molecule
+    from seqm.seqm_functions.constants import Constants, a0
+
+    method, name, rot = task["method"], task["name"], task["rot"]
+    mol = M.apply(M.get(name), M.generic_rot(rot))
+    out = {}
+    for label, const, scale in (("angstrom", Constants(), 1.0), ("bohr", Constants(length_conversion_factor=1.0), 1.0 / a0)):
+        p = sp.make_params(method, eps=1e-11, uhf=(mol["mult"] != 1))
+        spc, xyz, ch, mu = M.batch([mol])
+        kw = {}
+        if mol["charge"] != 0 or mol["mult"] != 1:
+            kw = dict(charges=torch.as_tensor(ch), mult=torch.as_tensor(mu))
+        molecule = Molecule(const, p, torch.as_tensor(xyz * scale), torch.as_tensor(spc), **kw)
+        molecule.verbose = False
+        es = Electronic_Structure(p)
+        es(molecule)
+        out[label] = {k: sp.to_np(getattr(molecule, k)) for k in ("Etot", "Eelec", "Enuc", "Hf", "q", "e_gap")}
+        out[label]["force_per_length"] = sp.to_np(molecule.force) * scale  # eV/bohr * (bohr/A)^-1 ... compared in eV/A
+    dev = {k: float(np.abs(np.asarray(out["angstrom"][k]) - np.asarray(out["bohr"][k])).max()) for k in out["angstrom"]}
+    return {"dev": dev, "Etot": float(out["angstrom"]["Etot"][0])}
+
+
 # ------------------------------------------------------------------------------------ run
 def detect_series_mode(_=None):
     """Which of the two documented evaluations of the B auxiliary integrals does the tree under test implement for
@@ -706,6 +738,28 @@ def run(chk, tier, seed):
                 f"{key}: {f['quantity']} package {f['got']:.10g} reference {f['ref']:.10g} |dev| {f['dev']:.3e} > tol {f['tol']:.1e}; failing quantities {qs}",
                 replay=dict(t),
             )
+    # unit-system twin (bohr input with length_conversion_factor = 1)
+    names = ["H2O", "NH3", "H2CO", "HCN", "CH3OH", "OH-"] if tier == "quick" else [n for n in M.MOLS if M.MOLS[n]["mult"] == 1]
+    utasks = [dict(method=m_, name=n_, rot=seed % 5) for m_ in METHODS for n_ in names if set(M.MOLS[n_]["species"]) <= set(M.ELEMENTS[m_])]
+    ures = pmap(eval_units, utasks, chunk=4, timeout=900, progress="C06 unit-system twin")
+    uworst = {}
+    for t, r in zip(utasks, ures):
+        key = f"units|{t['method']}|{t['name']}"
+        d0 = dict(part="units", method=t["method"], molecule=t["name"])
+        if is_timeout(r) or is_error(r):
+            chk.violation(d0, f"{key}: {str(r)[:300]}", replay=dict(t, units=True))
+            continue
+        chk.case(key, nontrivial=True, outcome=_bucket(max(r["dev"].values())))
+        chk.traces += 1
+        chk.states += 1
+        chk.transitions += len(r["dev"])
+        for q, v in r["dev"].items():
+            uworst[q] = max(uworst.get(q, 0.0), v)
+        # measured on the healthy tree: <= 5e-13 eV on energies, 1.4e-12 on forces
+        bad = {q: v for q, v in r["dev"].items() if v > (1e-7 if q != "force_per_length" else 1e-6)}
+        if bad:
+            chk.violation(dict(d0, quantity=sorted(bad)[0]), f"{key}: bohr input with length_conversion_factor=1 differs from the Angstrom run: {bad}", replay=dict(t, units=True))
+    chk.extra["unit_twin_max_dev"] = uworst
     chk.samples = my_samples
     chk.max_samples = len(my_samples)
     chk.extra["max_deviation_seen"] = {q: dict(dev=v[0], at=v[1]) for q, v in sorted(maxdev.items())}
